@@ -310,7 +310,8 @@ class Stepper:
 
 async def run_with_cancel(flavor: str, make_coro, style: str | None, k: int | None, on_fire=None):
     """Run make_coro() as the victim; inject one cancellation of `style` at suspension
-    point k. Returns (Outcome, total_yields)."""
+    point k (a number, or a predicate over the number of the suspension point that is about to be reached).
+    Returns (Outcome, total_yields)."""
     state = {"fired": False}
 
     if style in (None, "none"):
@@ -329,7 +330,7 @@ async def run_with_cancel(flavor: str, make_coro, style: str | None, k: int | No
             scope = anyio.CancelScope()
 
         def hook(ph, n):
-            if not state["fired"] and ph == phase and n == k:
+            if not state["fired"] and ph == phase and (k(n) if callable(k) else n == k):
                 state["fired"] = True
                 if on_fire is not None:
                     on_fire()
@@ -349,7 +350,7 @@ async def run_with_cancel(flavor: str, make_coro, style: str | None, k: int | No
         holder = {}
 
         def hook(ph, n):
-            if not state["fired"] and ph == "before" and n == k:
+            if not state["fired"] and ph == "before" and (k(n) if callable(k) else n == k):
                 state["fired"] = True
                 if on_fire is not None:
                     on_fire()
